@@ -42,3 +42,98 @@ Qed.
 Theorem C17_refusal_condition_decidable : forall old new lbs,
   {ceiling_div old lbs = ceiling_div new lbs} + {ceiling_div old lbs <> ceiling_div new lbs}.
 Proof. intros. apply Z.eq_dec. Qed.
+
+(* ---- modify_file_in_place itself: Model/InPlace.v (the call as a function from the opened image and object graph to the ordered list of writes it issues, statement by statement incl. utils.copy_data / zero_pad, every linked directory record and UDF File Entry re-recorded, the volume descriptors rewritten).  For EVERY well-formed state and every new content: *)
+From PV.Base Require Prim.
+From PV.Gen Require GenConst GenFun.
+From PV.Model Require Codec Checksums Udf InPlace InPlaceExamples.
+From PV.Proofs Require CodecProofs UdfProofs UdfFeProofs InPlaceImgProofs InPlaceBytesProofs InPlaceStepProofs InPlaceProofs InPlaceAfterProofs InPlaceDecodeProofs InPlaceExamplesProofs.
+Section InPlaceStatements.
+Import PV.Base.Prim PV.Gen.GenConst PV.Gen.GenFun PV.Model.Codec PV.Model.Checksums PV.Model.Udf PV.Model.InPlace PV.Model.InPlaceExamples PV.Proofs.CodecProofs PV.Proofs.UdfProofs PV.Proofs.UdfFeProofs PV.Proofs.InPlaceImgProofs PV.Proofs.InPlaceBytesProofs PV.Proofs.InPlaceStepProofs PV.Proofs.InPlaceProofs PV.Proofs.InPlaceAfterProofs PV.Proofs.InPlaceDecodeProofs PV.Proofs.InPlaceExamplesProofs.
+Local Open Scope Z_scope.
+Theorem C17_frame_only_allowed_bytes_change st m d now ws : wf_state st m = true -> length now = 17%nat ->
+  modify st d now = Done ws -> forall a, outside a (allowed st) = true -> apply_writes ws m a = m a.
+Proof. first [exact (@inplace_frame) | apply (@inplace_frame) | intros; eapply (@inplace_frame); eassumption]. Qed.
+
+Theorem C17_data_region_after_the_call st m d now ws ext : wf_state st m = true -> length now = 17%nat ->
+  st_child st = ChFile ext -> modify st d now = Done ws ->
+  (* the new bytes *)
+  read (apply_writes ws m) (ext * 2048) (length d) = d /\
+  (* what follows them up to the end of the last sector: the OLD bytes, except the very last one *)
+  (forall a, ext * 2048 + zlen d <= a < ext * 2048 + ceiling_div (zlen d) 2048 * 2048 ->
+     apply_writes ws m a = if a =? ext * 2048 + ceiling_div (zlen d) 2048 * 2048 - 1 then 0 else m a).
+Proof. first [exact (@inplace_content_data) | apply (@inplace_content_data) | intros; eapply (@inplace_content_data); eassumption]. Qed.
+
+Theorem C17_linked_records_after_the_call st m d now ws ext l b' : wf_state st m = true -> length now = 17%nat ->
+  st_child st = ChFile ext -> modify st d now = Done ws ->
+  In l (st_linked st) -> relink_one 2048 (zlen d) l = StWrite (lrec_pos 2048 l, b') ->
+  read (apply_writes ws m) (lrec_pos 2048 l) (length b') = b'.
+Proof. first [exact (@inplace_content_record) | apply (@inplace_content_record) | intros; eapply (@inplace_content_record); eassumption]. Qed.
+
+Theorem C17_accepted_only_with_the_same_sector_count st length fp now :
+  modify_run st length fp now <> Refused ->
+  ceiling_div (child_len st) (st_lbs st) = ceiling_div length (st_lbs st) /\ 0 <= length.
+Proof. first [exact (@inplace_same_sector_count) | apply (@inplace_same_sector_count) | intros; eapply (@inplace_same_sector_count); eassumption]. Qed.
+
+Theorem C17_accepted_iff_same_sector_count st m d now ext : wf_state st m = true -> st_child st = ChFile ext ->
+  st_initialized st = true -> mode_ok (st_mode st) = true -> length now = 17%nat ->
+  ((exists ws, modify st d now = Done ws) <-> ceiling_div (st_ino_len st) 2048 = ceiling_div (zlen d) 2048).
+Proof. first [exact (@inplace_accepted_iff) | apply (@inplace_accepted_iff) | intros; eapply (@inplace_accepted_iff); eassumption]. Qed.
+
+Theorem C17_refused_call_writes_nothing st m d now : wf_state st m = true -> length now = 17%nat ->
+  modify st d now = Refused \/ exists ws, modify st d now = Done ws.
+Proof. first [exact (@inplace_refused_writes_nothing) | apply (@inplace_refused_writes_nothing) | intros; eapply (@inplace_refused_writes_nothing); eassumption]. Qed.
+
+Theorem C17_negative_length_refused st n fp now : n < 0 -> modify_run st n fp now = Refused.
+Proof. first [exact (@inplace_negative_refused) | apply (@inplace_negative_refused) | intros; eapply (@inplace_negative_refused); eassumption]. Qed.
+
+Theorem C17_read_only_refused st d now s : st_mode st = Some s -> mode_ok (Some s) = false ->
+  modify st d now = Refused.
+Proof. first [exact (@inplace_read_only_refused) | apply (@inplace_read_only_refused) | intros; eapply (@inplace_read_only_refused); eassumption]. Qed.
+
+Theorem C17_state_stays_well_formed_for_the_next_call st m d now ws ext : wf_state st m = true -> length now = 17%nat ->
+  st_child st = ChFile ext -> modify st d now = Done ws ->
+  wf_state (state_after st (zlen d)) (apply_writes ws m) = true.
+Proof. first [exact (@inplace_wf_preserved) | apply (@inplace_wf_preserved) | intros; eapply (@inplace_wf_preserved); eassumption]. Qed.
+
+Theorem C17_rewritten_directory_record_decodes st m d now ws ext j pe eth oth dl lf r rest :
+  wf_state st m = true -> length now = 17%nat -> st_child st = ChFile ext -> modify st d now = Done ws ->
+  In (LDr j (Some pe) eth oth dl lf r) (st_linked st) ->
+  dec_dr (read (apply_writes ws m) ((pe + eth - 1) * 2048 + (oth - dl)) (Z.to_nat dl) ++ rest)
+  = Some (pad_sysuse (dr_set_len r (zlen d)), rest) /\
+  (* the record was the old one before *)
+  dec_dr (read m ((pe + eth - 1) * 2048 + (oth - dl)) (Z.to_nat dl) ++ rest) = Some (pad_sysuse r, rest).
+Proof. first [exact (@inplace_dr_decodes) | apply (@inplace_dr_decodes) | intros; eapply (@inplace_dr_decodes); eassumption]. Qed.
+
+Theorem C17_rewritten_file_entry_decodes st m d now ws ext x e rest abs :
+  wf_state st m = true -> length now = 17%nat -> st_child st = ChFile ext -> modify st d now = Done ws ->
+  In (LFe x e) (st_linked st) ->
+  exists ds' b',
+    fe_set_len e (zlen d) = Some (fe_with_len e (zlen d) ds') /\
+    map ad_extent_length ds' = fe_ad_lengths (zlen d) /\ map ad_pos ds' = map ad_pos (fe_ads e) /\
+    fe_record (fe_with_len e (zlen d) ds') = Some b' /\
+    fe_parse (read (apply_writes ws m) (x * 2048) (length b') ++ rest) abs (tg_location (fe_tag e))
+    = Some (fe_with_len e (zlen d) ds') /\
+    fe_parse (read m (x * 2048) (length b') ++ rest) abs (tg_location (fe_tag e)) = Some e.
+Proof. first [exact (@inplace_fe_decodes) | apply (@inplace_fe_decodes) | intros; eapply (@inplace_fe_decodes); eassumption]. Qed.
+
+Theorem C17_zero_padding_after_a_shrink_refuted :
+  exists st m d now ws ext a,
+    wf_state st m = true /\ length now = 17%nat /\ st_child st = ChFile ext /\ modify st d now = Done ws /\
+    ext * 2048 + zlen d <= a < ext * 2048 + ceiling_div (zlen d) 2048 * 2048 /\
+    apply_writes ws m a = m a /\ m a <> 0.
+Proof. first [exact (@inplace_zero_padding_refuted) | apply (@inplace_zero_padding_refuted) | intros; eapply (@inplace_zero_padding_refuted); eassumption]. Qed.
+
+Theorem C17_refused_call_before_the_negative_length_fix_refuted :
+  exists st m len fp now ws,
+    wf_state st m = true /\ length now = 17%nat /\ st_ino_len st = 0 /\ len = -5 /\
+    modify_run_before_0411073 st len fp now = Partial ws /\ In (4, [0]) ws.
+Proof. first [exact (@inplace_refused_writes_nothing_refuted) | apply (@inplace_refused_writes_nothing_refuted) | intros; eapply (@inplace_refused_writes_nothing_refuted); eassumption]. Qed.
+
+Example C17_inplace_nonvacuous_two_links : wf_state ex2_st ex2_m = true.
+Proof. first [exact (@ip_ex2_wf) | apply (@ip_ex2_wf) | intros; eapply (@ip_ex2_wf); eassumption]. Qed.
+
+Example C17_inplace_nonvacuous_all_namespaces : wf_state ex5_st ex5_m = true.
+Proof. first [exact (@ip_ex5_wf) | apply (@ip_ex5_wf) | intros; eapply (@ip_ex5_wf); eassumption]. Qed.
+
+End InPlaceStatements.
